@@ -38,7 +38,7 @@ Inductive ev :=
 | ETvFail (i : Z)
 | ECrash (i : Z)
 | EHarnessPanic
-| EEnvMark (code i : Z)
+| EEnvMark (code i op : Z)
 | EOther (code : Z).
 
 (* kind numbers: the order of this list is the contract with oracle/sim_cmds.ml *)
@@ -83,7 +83,7 @@ Definition decode (k : Z) (a : list Z) : ev :=
   | 30, [i] => ETvFail i
   | 31, [i] => ECrash i
   | 32, _ => EHarnessPanic
-  | 33, [c; i] => EEnvMark c i
+  | 33, [c; i; op] => EEnvMark c i op
   | _, _ => EOther k
   end.
 
